@@ -4,6 +4,7 @@ import (
 	"encoding/json"
 	"fmt"
 	"runtime"
+	"sort"
 	"strings"
 	"sync"
 	"sync/atomic"
@@ -46,6 +47,21 @@ type HistInput struct {
 	EmptyStart bool `json:"empty_start,omitempty"`
 	// UnkSQL: the text of the unclassified statement inserted by Insert{Unit: unkS}.
 	UnkSQL string `json:"unk_sql,omitempty"`
+	// FileCfgs: the configuration each file was written under (binlog_checksum
+	// changed, server upgraded: the setting is recorded per file); Global: the
+	// master's current setting, under which the ROTATE that opens a dump is written.
+	// Wipe: the handler overwrites everything it was given (values, names, flags,
+	// positions, the Transaction struct itself) after taking its snapshot.
+	Wipe bool `json:"wipe,omitempty"`
+	// RepositionAt k+1: after a complete first Stream call the caller sets the
+	// position to the label of delivery k-1 (k = 0: the start) and streams again.
+	RepositionAt int       `json:"reposition_at,omitempty"`
+	FileCfgs     []ref.Cfg `json:"file_cfgs,omitempty"`
+	// QVars / QFlags: status variables added to (in code order) and header flag
+	// bits set on EVERY query event of the history (the session's settings)
+	QVars  []ref.StatusVar `json:"q_vars,omitempty"`
+	QFlags uint16          `json:"q_flags,omitempty"`
+	Global       *ref.Cfg  `json:"global,omitempty"`
 }
 
 // UnclassifiedStatements are statements a server logs as query events whose
@@ -82,6 +98,49 @@ func (in HistInput) build() *ref.History {
 		f.Events = evs
 		h.Layout()
 	}
+	if len(in.QVars) > 0 || in.QFlags != 0 {
+		rank := func(c byte) int {
+			if c == ref.QCatalogNZ {
+				return 2 // written where the old catalog variable used to be
+			}
+			return int(c)
+		}
+		for _, f := range h.Files {
+			for i, e := range f.Events {
+				if e.Kind != ref.AQuery {
+					continue
+				}
+				ne := *e
+				q := *e.Query
+				vars := append([]ref.StatusVar{}, in.QVars...)
+				for _, v := range q.Vars {
+					dup := false
+					for _, x := range in.QVars {
+						dup = dup || x.Code == v.Code
+					}
+					if !dup {
+						vars = append(vars, v)
+					}
+				}
+				sort.SliceStable(vars, func(a, b int) bool { return rank(vars[a].Code) < rank(vars[b].Code) })
+				q.Vars = vars
+				ne.Query = &q
+				ne.Flags |= in.QFlags
+				f.Events[i] = &ne
+			}
+		}
+		h.Layout()
+	}
+	if len(in.FileCfgs) > 0 || in.Global != nil {
+		for i, f := range h.Files {
+			if i < len(in.FileCfgs) {
+				c := in.FileCfgs[i]
+				f.Cfg = &c
+			}
+		}
+		h.Global = in.Global
+		h.Layout()
+	}
 	return h
 }
 
@@ -107,7 +166,7 @@ func checkGrouping(in HistInput) (string, int, int) {
 	if in.CutAt > 0 {
 		return checkCutRetry(in, h, start, exp, len(served)), len(served), len(exp)
 	}
-	out := Run(h, Opts{Start: start, ServerID: 77, LockStep: in.LockStep && !in.TCP, KeepTx: true, TCP: in.TCP})
+	out := Run(h, Opts{Start: start, ServerID: 77, LockStep: in.LockStep && !in.TCP, KeepTx: !in.Wipe, Wipe: in.Wipe, TCP: in.TCP})
 	if out.Hung {
 		return "HUNG", len(served), len(exp)
 	}
@@ -168,7 +227,7 @@ func checkRejectRetry(in HistInput, h *ref.History, start ref.Position, exp []re
 	if k >= len(exp) {
 		return ""
 	}
-	out := Run(h, Opts{Start: start, ServerID: 77, LockStep: in.LockStep, KeepTx: true, Attempts: 2, FailSet: true, FailAt: k})
+	out := Run(h, Opts{Start: start, ServerID: 77, LockStep: in.LockStep, KeepTx: !in.Wipe, Wipe: in.Wipe, Attempts: 2, FailSet: true, FailAt: k})
 	if out.Hung {
 		return "HUNG"
 	}
@@ -207,7 +266,7 @@ func checkCutRetry(in HistInput, h *ref.History, start ref.Position, exp []ref.E
 	if k >= nserved {
 		return ""
 	}
-	out := Run(h, Opts{Start: start, ServerID: 77, LockStep: in.LockStep, KeepTx: true, Attempts: 2,
+	out := Run(h, Opts{Start: start, ServerID: 77, LockStep: in.LockStep, KeepTx: !in.Wipe, Wipe: in.Wipe, Attempts: 2,
 		Plans: []simmaster.Plan{{At: k, Kind: "fin", Final: "eof"}, {At: -1, Final: "eof"}}})
 	if out.Hung {
 		return "HUNG"
@@ -226,6 +285,24 @@ func checkCutRetry(in HistInput, h *ref.History, start ref.Position, exp []ref.E
 	return ""
 }
 
+func settingsNote(in HistInput) string {
+	if len(in.FileCfgs) == 0 && in.Global == nil {
+		return ""
+	}
+	s := " files written under ["
+	for i, c := range in.FileCfgs {
+		if i > 0 {
+			s += ", "
+		}
+		s += CfgName(c)
+	}
+	s += "]"
+	if in.Global != nil {
+		s += " master now " + CfgName(*in.Global)
+	}
+	return s
+}
+
 func clip(s string, n int) string {
 	if len(s) > n {
 		return s[:n] + "..."
@@ -242,6 +319,8 @@ func replayHist(kind string, input json.RawMessage) (bool, string) {
 		return ReplaySchema(input)
 	case "scale":
 		return ReplayScale(input)
+	case "nest":
+		return ReplayNest(input)
 	case "headerbytes":
 		return ReplayHeaderBytes(input)
 	case "unktype":
@@ -258,7 +337,11 @@ func replayHist(kind string, input json.RawMessage) (bool, string) {
 	var why string
 	switch in.Oracle {
 	case "resume":
-		why = checkResume(in)
+		if in.RepositionAt > 0 {
+			why = checkReposition(in)
+		} else {
+			why = checkResume(in)
+		}
 	case "fidelity":
 		why, _, _ = checkGrouping(in)
 	default:
@@ -368,7 +451,7 @@ func newHistRunner(r *chk.Run, prop string, check func(HistInput) (string, int, 
 					in2 := in
 					r.Report(chk.Violation{
 						Key:     classify(why),
-						What:    fmt.Sprintf("units=%v cfg=%s lockstep=%v start=%s:%d: %s", in.Units, CfgName(in.Cfg), in.LockStep, in.StartFile, in.StartPos, why),
+						What:    fmt.Sprintf("units=%v cfg=%s%s lockstep=%v start=%s:%d: %s", in.Units, CfgName(in.Cfg), settingsNote(in), in.LockStep, in.StartFile, in.StartPos, why),
 						Kind:    "history",
 						Replay:  in2,
 						Recheck: func() string { w, _, _ := hr.check(in2); return w },
@@ -447,6 +530,8 @@ func runC02(r *chk.Run) {
 	}
 	// every uninterpreted event type, inside and between transactions
 	RunUnknownTypes(r)
+	RunScale(r, "big-transaction", "table-ids")
+	RunQueryEnvelope(r)
 	// every unclassified statement at every slot of a two-transaction history
 	for _, cfg := range []ref.Cfg{cfgA, cfgB} {
 		for _, in := range UnknownStatementInputs(cfg) {
@@ -477,6 +562,14 @@ func runC02(r *chk.Run) {
 		if len(seq) <= 3 {
 			hr.add(HistInput{Units: units, Cfg: cfgA, LockStep: false})
 			hr.add(HistInput{Units: units, Cfg: cfgB, LockStep: true})
+			if len(seq) > 0 {
+				// the file has grown beyond 4 GiB: the events straddle 2^32
+				for _, cfg := range []ref.Cfg{cfgA, cfgB} {
+					in := HistInput{Units: units, Cfg: cfg, LockStep: true}
+					placeBases(&in, "wrap32")
+					hr.add(in)
+				}
+			}
 			// the handler rejects delivery k, the same Streamer streams again
 			for k := 1; k <= len(seq) && len(seq) > 0; k++ {
 				hr.add(HistInput{Units: units, Cfg: cfgA, LockStep: true, RejectAt: k})
